@@ -1,6 +1,6 @@
 (** C01 - only SHA-1-verified torrent bytes are ever written into the export tree.  Statements only. *)
 From TB Require Import Base Decimal BencodeModel TorrentModel TorrentProofs PathModel FsModel SolverModel FinderModel RunModel
-                       SolverProofs RunProofs FsProofs FaultProofs PreludeProofs TableProofs Generated GeneratedObligations.
+                       SolverProofs RunProofs FsProofs FaultProofs PreludeProofs TableProofs Generated GeneratedObligations SystemModel SystemProofs GlueProofs RunExample.
 Local Open Scope N_scope.
 
 (** For every piece: whatever the candidate reads return and whichever operations fail - hence under
@@ -39,7 +39,40 @@ Theorem C01_fs_bytes_sound truth decl f0 ops f1 : run_ops (adm truth decl) f0 op
   forall j, Inv (fs_content f0 j) (truth j) (decl j) (fs_content f1 j).
 Proof. exact (fs_ops_sound truth decl f0 ops f1). Qed.
 
+(** WHOLE RUN.  For the torrents the loader returns, the table and work list the model builds from
+    them and the pool of their piece programs ([run_setup]: the remaining premises are that
+    [content] is the torrents' real content, collision-free at every piece, that entries with one
+    export path denote one file, and that no two export paths are initially hard links of one
+    inode), in EVERY reachable state of the scanning phase - any interleaving of the workers, any
+    I/O faults, cut anywhere including inside a write - every byte of every export image is the
+    byte it held before, a zero of extension, or the torrent's byte at that offset. *)
+Theorem C01_whole_run_bytes_sound H content export ts ix es ws f0 pool0 s e i :
+  run_setup H content export ts ix es ws f0 pool0 -> sreach {| s_fs := f0; s_pool := pool0 |} s ->
+  owner es (s_fs s) i e -> Inv (fs_content f0 i) (content e) (N.to_nat (e_len e)) (fs_content (s_fs s) i).
+Proof. exact (whole_run_bytes_sound H content export ts ix es ws f0 pool0 s e i). Qed.
+
+(** The side conditions of [C01_piece_issues_only_good_ops] hold for every piece of the work list
+    of loadable, pairwise distinct torrents (from the layout theorems, C06): collision-freeness is
+    the only premise left. *)
+Theorem C01_every_work_piece_good export ts ix es content H ws pc :
+  Forall torrent_ok ts -> NoDup (map t_info_hash ts) -> populate ix (metadata_table export ts 0) = Ok es ->
+  (forall e, In e es -> N.of_nat (length (content e)) = e_len e) ->
+  work_of es ts = Ok ws -> In pc ws -> cr H content pc -> good content pc (solve_prog H pc).
+Proof. exact (fun Hts Hnd Hpop Hc => work_programs_good export ts ix es Hts Hnd Hpop content Hc H ws pc). Qed.
+
+(** Non-vacuity: a concrete [run_setup], a complete run of it and a run cut inside its write. *)
+Example C01_setup_satisfiable : run_setup Hid ex_content ex_export [ex_t] ex_ix ex_es ex_ws ex_f0 ex_pool.
+Proof. exact ex_setup. Qed.
+Example C01_run_reaches_written_state :
+  exists s, sreach {| s_fs := ex_f0; s_pool := ex_pool |} s /\ s_pool s = [Ret Success] /\ fs_file (s_fs s) ex_target = Some [7; 8].
+Proof. exact ex_reach. Qed.
+Example C01_run_reaches_cut_state :
+  exists s, sreach {| s_fs := ex_f0; s_pool := ex_pool |} s /\ s_pool s = [] /\ fs_file (s_fs s) ex_target = Some [7; 0].
+Proof. exact ex_reach_cut. Qed.
+
 Print Assumptions C01_piece_issues_only_good_ops.
 Print Assumptions C01_accepted_traces_are_good.
 Print Assumptions C01_file_bytes_sound.
 Print Assumptions C01_fs_bytes_sound.
+Print Assumptions C01_whole_run_bytes_sound.
+Print Assumptions C01_every_work_piece_good.
